@@ -209,9 +209,14 @@ def _brute(poly, objective):
     return {"feasible": True, "max": int(vals[feas].max()), "X": X, "feas": feas, "A": A, "b": b, "bounds": bounds}
 
 
-def verify(ops, sut, aux, mask, cache):
+def verify(ops, sut, aux, mask, cache, stats=None):
     """absolute C15 oracles over the SUT's recorded exchanges. returns first failure or None"""
     res = sut["results"]
+    stats = {} if stats is None else stats
+
+    def st(name, n=1):
+        stats[name] = stats.get(name, 0) + n
+    faulted = set()   # handles whose peer has already raised / answered None / been abandoned mid-result
     for k, op in enumerate(ops):
         if k not in aux:
             continue
@@ -226,7 +231,13 @@ def verify(ops, sut, aux, mask, cache):
         ppoly = ax["poly"].get("v")
         if ppoly is None:
             # model has no pristine polyhedron (library raises even in a pristine process): nothing to align
+            st("c15:request-skipped-no-pristine-polyhedron")
             continue
+        st("c15:request-verified:" + op["m"])
+        if op["h"] in faulted and spec.get("mode") != "raise" and not spec.get("none"):
+            st("c15:healthy-request-after-a-fault-on-the-same-object")
+        if spec.get("mode") == "raise" or spec.get("none"):
+            faulted.add(op["h"])
         is_select = op["m"] == "select"
         reqs = a["prios"] if is_select else a["objs"]
         seam = r.get("seam") or []
@@ -275,7 +286,9 @@ def verify(ops, sut, aux, mask, cache):
             if list(got[2]) != [ncol] or [int(x) if not isinstance(x, list) else x[1] for x in got[3]] != want:
                 return _fail(k, op, f"objective {j} is not the weight of each column's id", got, want)
         # ---- (3) the peer raised at call time
+        st("c15:objectives-aligned-by-id", len(reqs))
         if spec.get("mode") == "raise":
+            st("c15:peer-raised:" + op["m"])
             if is_select:
                 if not ("exc" in r and r["exc"][1] == "InfeasibleError"):
                     return _fail(k, op, "solver exception did not surface as InfeasibleError from select()", r.get("exc") or r)
@@ -295,8 +308,10 @@ def verify(ops, sut, aux, mask, cache):
             if isinstance(n, dict):
                 nodes.setdefault(n["id"], n)
         for j, item in enumerate(items or []):
-            vec, z, st = answers[j]
+            vec, z, stc = answers[j]
+            st("c15:answer-mapped-back-by-id")
             if vec is None:
+                st("c15:none-answer->empty-result")
                 exp = {}
             else:
                 exp = {}
@@ -314,14 +329,15 @@ def verify(ops, sut, aux, mask, cache):
                             continue
                     exp[i] = vec[c]
             if is_select and a.get("only_leafs"):
+                st("c15:only_leafs-filter-checked")
                 got_d = item
                 got_z = got_st = None
             else:
                 if not (isinstance(item, list) and item[0] == "tup" and len(item) == 4):
                     return _fail(k, op, f"result {j} is not a (solution, value, status) tuple", item)
                 got_d, got_z, got_st = item[1], item[2], item[3]
-                if got_z != z or got_st != st:
-                    return _fail(k, op, f"result {j}: objective value / status not passed through", [got_z, got_st], [z, st])
+                if got_z != z or got_st != stc:
+                    return _fail(k, op, f"result {j}: objective value / status not passed through", [got_z, got_st], [z, stc])
             if not (isinstance(got_d, list) and got_d[0] == "dict"):
                 return _fail(k, op, f"result {j}: solution is not a dictionary", got_d)
             got_map = {}
@@ -338,6 +354,7 @@ def verify(ops, sut, aux, mask, cache):
                     x = np.array(vec, dtype=np.int64)
                     if not ((bf["A"] @ x >= bf["b"]).all() and all(lo <= xi <= hi for xi, (lo, hi) in zip(vec, bf["bounds"]))):
                         return _fail(k, op, f"result {j}: reported point is not an in-bounds point of the pristine polyhedron", vec)
+                    st("c15:exact-answer-feasible+optimal-by-independent-brute-force")
                     val = int(np.array(intended[j], dtype=np.int64) @ x)
                     if val != bf["max"]:
                         return _fail(k, op, f"result {j}: reported point is not optimal for the requested weights", val, bf["max"])
@@ -347,6 +364,7 @@ def verify(ops, sut, aux, mask, cache):
                         asg = {i: int(vec[c]) for c, i in enumerate(col_ids) if i in inf["leaves"]}
                         if set(asg) == set(inf["leaves"]):
                             top, _ = M.evaluate(dump, asg)
+                            st("c15:solver-safe-model-satisfied-by-independent-evaluator")
                             if top != 1:
                                 return _fail(k, op, f"result {j}: optimal point of a solver-safe model does not satisfy the model", asg)
             elif vec is None and j < len(answers):
@@ -382,8 +400,9 @@ class C15:
     @staticmethod
     def check(case, mask, cache):
         sut = procs.run_child(engine.child_all, (case["ops"],), shims=mask)
-        div = verify(case["ops"], sut, case["aux"], mask, cache)
-        return {"divergence": div, "sut": sut, "checked": len(case["aux"])}
+        stats = {}
+        div = verify(case["ops"], sut, case["aux"], mask, cache, stats)
+        return {"divergence": div, "sut": sut, "checked": len(case["aux"]), "hits": stats}
 
     @staticmethod
     def check_raw(case, cache):
